@@ -270,6 +270,12 @@ fn respell(t: &mut Tape, line: &str) -> String {
                 let r = t.pick(ds.len());
                 ds.rotate_left(r);
             }
+            // repeating an entry does not change the set of domains
+            if t.chance(1, 3) {
+                let d = ds[t.pick(ds.len())];
+                let at = t.pick(ds.len() + 1);
+                ds.insert(at, d);
+            }
             *o = format!("{}={}", k, ds.join("|"));
         }
     }
@@ -459,7 +465,7 @@ pub fn decode_bad(t: &mut Tape) -> BadCase {
 }
 
 pub fn check(ctx: &mut Ctx) {
-    ctx.rule = "mono-big: a same-shape group of 2-800 rules (sizes around 16/32/64/128/256/512) with one rule taken out and added back as x, optimisation mostly on, one request per rule; mono: list L (1-24 rules, C01 generator, optimisation on/off) + extra rule x cut from one of the request URLs, inserted at a generated index; engines for L and L+x compared on 1-8 requests (x exception => blocked(L+x) implies blocked(L); x blocking => blocked(L) implies blocked(L+x)); blocked/important/exception also compared with the rule-by-rule spec; when L has no badfilter rule the same two implications are checked on a live Blocker that received L one rule at a time, before and after Blocker::add_filter(x), and its answers for L must equal the engine's. Non-trivial = x itself matches the request. bad: rule y + rule z that is either a re-spelling of y (aliases, option order, domain order) or y with one semantic atom changed (char moved across host/path boundary, domain<->~domain, char moved between modifier value and pattern, pattern char, option added/removed/negated, @@ toggled, anchor toggled); engines [y], [z], [y, z$badfilter], [z$badfilter], [] observed on ~20 probes per URL. Non-trivial = twin cancelling a rule that visibly does something, or near-miss that some probe distinguishes from y.".into();
+    ctx.rule = "mono-big: a same-shape group of 2-800 rules (sizes around 16/32/64/128/256/512) with one rule taken out and added back as x, optimisation mostly on, one request per rule; mono: list L (1-24 rules, C01 generator, optimisation on/off) + extra rule x cut from one of the request URLs, inserted at a generated index; engines for L and L+x compared on 1-8 requests (x exception => blocked(L+x) implies blocked(L); x blocking => blocked(L) implies blocked(L+x)); blocked/important/exception also compared with the rule-by-rule spec; when L has no badfilter rule the same two implications are checked on a live Blocker that received L one rule at a time, before and after Blocker::add_filter(x), and its answers for L must equal the engine's. Non-trivial = x itself matches the request. bad: rule y + rule z that is either a re-spelling of y (aliases, option order, domain order, repeated domain entries) or y with one semantic atom changed (char moved across host/path boundary, domain<->~domain, char moved between modifier value and pattern, pattern char, option added/removed/negated, @@ toggled, anchor toggled); engines [y], [z], [y, z$badfilter], [z$badfilter], [] observed on ~20 probes per URL. Non-trivial = twin cancelling a rule that visibly does something, or near-miss that some probe distinguishes from y.".into();
     ctx.assumptions = vec![
         "tag differences between a rule and its badfilter twin are outside the domain (no tags generated for badfilter pairs)".into(),
         "a near-miss that no probe distinguishes from y is counted as undetermined, not checked".into(),
